@@ -327,6 +327,17 @@ func groupObjects(s *sink, g *hx.Gen) {
 		}
 		return
 	}
+	if g.R.Intn(6) == 0 {
+		// an object without properties (an empty output, a marker, a parameterless member): only the empty map
+		// is a value of it; anything that is not a map is refused (there is no single property to stand for)
+		empty := &hx.Ty{T: "obj", ID: "Empty"}
+		holder := &hx.Ty{T: "obj", ID: "H", Props: []hx.NamedProp{{Name: "marker", P: &hx.Prop{Ty: empty}}, {Name: "n", P: &hx.Prop{Ty: &hx.Ty{T: "int"}}}}}
+		for _, v := range []*hx.Val{hx.StrAny(), hx.AnyAny(), hx.Nil(), hx.Int("int64", 5), hx.Str("x"), hx.List(), hx.Bool(true), hx.StrAny([2]*hx.Val{hx.Str("a"), hx.Int("int64", 1)})} {
+			chain(s, empty, v, "objects:empty")
+			chain(s, holder, hx.StrAny([2]*hx.Val{hx.Str("marker"), v}), "objects:empty-nested")
+			chain(s, &hx.Ty{T: "list", Item: empty}, hx.List(v), "objects:empty-item")
+		}
+	}
 	old := g.MaxDepth
 	g.MaxDepth = 2
 	t := g.Object(1, nil, 0)
@@ -1057,6 +1068,32 @@ func groupRules(s *sink, g *hx.Gen) {
 		ty   *hx.Ty
 		v    *hx.Val
 		what string
+	}
+	// single-property objects whose property holds a MAP (the short form cannot be told from the long one by
+	// the kind of the value): written in long form with one fault inside
+	mapHolder := &hx.Ty{T: "obj", ID: "Limits", Props: []hx.NamedProp{{Name: "values", P: &hx.Prop{Ty: &hx.Ty{T: "map", K: &hx.Ty{T: "str"}, V: &hx.Ty{T: "int"}}, Required: true}}}}
+	objHolder := &hx.Ty{T: "obj", ID: "Env", Props: []hx.NamedProp{{Name: "settings", P: &hx.Prop{Ty: &hx.Ty{T: "obj", ID: "Settings", Props: []hx.NamedProp{
+		{Name: "region", P: &hx.Prop{Ty: &hx.Ty{T: "str"}}}, {Name: "replicas", P: &hx.Prop{Ty: &hx.Ty{T: "int"}, Required: true}}}}, Required: true}}}}
+	kv := func(k string, v *hx.Val) [2]*hx.Val { return [2]*hx.Val{hx.Str(k), v} }
+	for _, pc := range []plain{
+		{mapHolder, hx.StrAny(kv("values", hx.StrAny(kv("cpu", hx.Str("x")), kv("mem", hx.Int("int64", 1))))), "long form of a single-property object holding a map, bad map value"},
+		{mapHolder, hx.StrAny(kv("values", hx.StrAny(kv("cpu", hx.Int("int64", 1)))), kv("burst", hx.Int("int64", 2))), "long form of a single-property object holding a map, undeclared key next to it"},
+		{objHolder, hx.StrAny(kv("settings", hx.StrAny(kv("region", hx.Str("eu")), kv("replicas", hx.Str("x"))))), "long form of a single-property object holding an object, bad leaf"},
+		{objHolder, hx.StrAny(kv("settings", hx.StrAny(kv("region", hx.Str("eu"))))), "long form of a single-property object holding an object, required property missing below"},
+		{objHolder, hx.StrAny(kv("settings", hx.StrAny(kv("replicas", hx.Int("int64", 1)), kv("zone", hx.Str("a"))))), "long form of a single-property object holding an object, undeclared key below"},
+	} {
+		pt, pv := pc.ty, pc.v
+		for _, w := range wraps {
+			pt = w.ty(pt)
+			pv = w.val(pv)
+		}
+		r, id, _ := s.emit("U", pt, pv, nil, false, "path", "rules:holder")
+		s.stats["rules:holder"]++
+		if r.R == "ok" {
+			s.finding(Finding{Prop: "C03", What: "invalid element accepted (" + pc.what + ")", Cases: []int{id}, Schema: pt, Input: pv})
+		} else if r.R == "err" && (r.C == nil || !*r.C) {
+			s.finding(Finding{Prop: "C17", What: "rejection is not a constraint error (" + pc.what + ")", Cases: []int{id}, Schema: pt, Input: pv, Detail: []string{r.JSON()}})
+		}
 	}
 	for _, pc := range []plain{
 		{single, hx.Str("x"), "short form, value not a number"},
